@@ -167,9 +167,27 @@ fn fpair(d: &mut Draw, n: usize) -> (Vec<f64>, Vec<f64>, &'static str) {
     }
 }
 
+/// the statements are scale-free: now and then the whole configuration is scaled by 1e-30..1e30
+/// (products of four components, as in |u x v|^2, must stay inside the f64 range)
+fn rescale(d: &mut Draw, u: &mut Vec<f64>, v: &mut Vec<f64>) -> f64 {
+    if d.chance(1, 3) {
+        let k = d.f64_log(1e-30, 1e30);
+        for x in u.iter_mut() {
+            *x *= k;
+        }
+        for x in v.iter_mut() {
+            *x *= k;
+        }
+        k
+    } else {
+        1.0
+    }
+}
+
 fn lengths_f64<V: InnerSpace<Scalar = f64> + Comp<f64>>(d: &mut Draw) -> Outcome {
-    let (u, v, cls) = fpair(d, V::N);
-    let m = d.f64_slog(1e-3, 1e3);
+    let (mut u, mut v, cls) = fpair(d, V::N);
+    let k = rescale(d, &mut u, &mut v);
+    let m = d.f64_slog(1e-3, 1e3) * k;
     d.note("u", &u);
     d.note("v", &v);
     d.note("m", &m);
@@ -200,7 +218,8 @@ fn lengths_f64<V: InnerSpace<Scalar = f64> + Comp<f64>>(d: &mut Draw) -> Outcome
 }
 
 fn angle_f64<V: InnerSpace<Scalar = f64> + Comp<f64>>(d: &mut Draw) -> Outcome {
-    let (u, v, cls) = fpair(d, V::N);
+    let (mut u, mut v, cls) = fpair(d, V::N);
+    rescale(d, &mut u, &mut v);
     d.note("u", &u);
     d.note("v", &v);
     d.note("class", &cls);
@@ -228,6 +247,21 @@ fn angle_f64<V: InnerSpace<Scalar = f64> + Comp<f64>>(d: &mut Draw) -> Outcome {
         ensure!(a >= 0.0 && a <= PI, "angle-range", "{}::angle = {} outside [0, pi]", V::NAME, a);
         ensure!((a - b).abs() <= 1e-12 || (a.cos() - b.cos()).abs() <= 1e-15, "angle-symmetric", "{}: angle(u,v) = {}, angle(v,u) = {}", V::NAME, a, b);
     }
+    pass(cls, true)
+}
+
+
+fn point_distance_f64<P: MetricSpace<Metric = f64> + Comp<f64>>(d: &mut Draw) -> Outcome {
+    let (u, v, cls) = fpair(d, P::N);
+    d.note("p", &u);
+    d.note("q", &v);
+    let (cp, cq) = (P::from_s(&u), P::from_s(&v));
+    let diff: Vec<f64> = (0..P::N).map(|i| u[i] - v[i]).collect();
+    let e = f64::EPSILON;
+    let dist = cp.distance(cq);
+    ensure!((dist - fnorm(&diff)).abs() <= 8.0 * e * (fnorm(&diff) + 1e-300), "point-distance-f64", "{}::distance = {:e}, reference |p-q| = {:e}", P::NAME, dist, fnorm(&diff));
+    ensure!((dist - cq.distance(cp)).abs() <= 4.0 * e * dist, "point-distance-symmetric-f64", "{}::distance not symmetric", P::NAME);
+    ensure!((dist * dist - cp.distance2(cq)).abs() <= 8.0 * e * cp.distance2(cq), "point-distance-squared-f64", "{}: distance^2 vs distance2", P::NAME);
     pass(cls, true)
 }
 
@@ -259,6 +293,7 @@ pub fn property() -> Property {
             add!(concat!("metric-", $tag, "-Q"), "Q", metric_field::<Q, $T<Q>>, 2000, 100_000, 24, &[("generic", 100)], "p - q has no zero component");
             add!(concat!("metric-", $tag, "-Fp"), "Fp", metric_field::<Fp, $T<Fp>>, 2000, 100_000, 24, &[("generic", 100)], "p - q has no zero component");
             add!(concat!("distance-", $tag, "-Q"), "Q", point_lengths_q::<$T<Q>>, 2000, 100_000, 32, &[], "p has no zero component");
+            add!(concat!("distance-", $tag, "-f64"), "f64", point_distance_f64::<$T<f64>>, 3000, 200_000, 48, PAIRS, "every generated pair of points");
         };
     }
     metric!(Point1, "Point1");
